@@ -149,8 +149,10 @@ Definition lookup (s : store) (k : kind) (id : N) : option rsrc :=
 Definition of_kind (s : store) (k : kind) : list rsrc :=
   filter (fun r => kind_eqb (r_kind r) k) (s_res s).
 
+(** URM lookup by user; an invalid (zero) user id in the filter means "any user"
+    ([Store.ListURMs]: [!filter.UserID.Valid() || …]). *)
 Definition member (s : store) (u o : N) : bool :=
-  existsb (fun m => N.eqb (fst m) u && N.eqb (snd m) o) (s_urm s).
+  existsb (fun m => (N.eqb u 0 || N.eqb (fst m) u) && N.eqb (snd m) o) (s_urm s).
 
 Inductive flt := FNone | FID (i : N) | FOrg (o : N) | FUser (u : N).
 
@@ -221,7 +223,7 @@ Definition findn (c : caller) (s : store) (k : kind) (f : flt) : result :=
               end
   end.
 
-(** ** create.  [new] carries the inputs and the id the service assigned ([r_id]);
+(** ** create.  [new] carries the kind, the inputs and the id the service assigned ([r_id]);
     [sysids]: the ids assigned to the two system buckets of a new organization. *)
 Definition add (s : store) (r : rsrc) : store := mkstore (s_res s ++ [r]) (s_urm s).
 
@@ -236,8 +238,8 @@ Definition auth_valid (new : rsrc) : bool :=
 Definition exists_res (s : store) (k : kind) (id : N) : bool :=
   match lookup s k id with Some _ => true | None => false end.
 
-Definition svc_create (c : caller) (s : store) (k : kind) (new : rsrc) (sysids : list N) : result :=
-  match k with
+Definition svc_create (c : caller) (s : store) (new : rsrc) (sysids : list N) : result :=
+  match r_kind new with
   | KBucket =>
       if exists_res s KOrg (r_org new)
       then done [] (add s (mkres KBucket (r_id new) (r_org new) 0 false (r_pay new) false []))
@@ -246,9 +248,13 @@ Definition svc_create (c : caller) (s : store) (k : kind) (new : rsrc) (sysids :
   | KOrg =>
       let sys := map (fun ip => mkres KBucket (fst ip) (r_id new) 0 true (snd ip) false [])
                      (combine sysids [1000; 1001]%N) in
-      let urm := if N.eqb (c_user c) 0 then [] else [(c_user c, r_id new)] in
-      done [] (mkstore (s_res s ++ mkres KOrg (r_id new) 0 0 false (r_pay new) false [] :: sys)
-                       (s_urm s ++ urm))
+      let rs := s_res s ++ mkres KOrg (r_id new) 0 0 false (r_pay new) false [] :: sys in
+      (* the caller's user becomes owner; CreateURM fails if that user does not exist —
+         AFTER the organization and its system buckets were stored *)
+      if N.eqb (c_user c) 0 then done [] (mkstore rs (s_urm s))
+      else if exists_res s KUser (c_user c)
+      then done [] (mkstore rs (s_urm s ++ [(c_user c, r_id new)]))
+      else err E_NOTFOUND (mkstore rs (s_urm s))
   | KAuth =>
       if negb (auth_valid new) then err E_OTHER s
       else if negb (exists_res s KUser (r_user new) && exists_res s KOrg (r_org new))
@@ -261,15 +267,15 @@ Definition svc_create (c : caller) (s : store) (k : kind) (new : rsrc) (sysids :
     that is not gives EForbidden. *)
 Definition verify_perms (c : caller) (ps : list perm) : bool := forallb (held c) ps.
 
-Definition create (c : caller) (s : store) (k : kind) (v : N) (new : rsrc) (sysids : list N) : result :=
+Definition create (c : caller) (s : store) (v : N) (new : rsrc) (sysids : list N) : result :=
   match authorize_all c (create_reqs new) with
   | AzOk =>
-      match k with
+      match r_kind new with
       | KAuth =>
           if negb (verify_perms c (r_perms new)) then err E_FORBID s
           else if N.eqb (N.modulo v 2) 1 && has_instance (r_perms new) then err E_OTHER s
-          else svc_create c s k new sysids
-      | _ => svc_create c s k new sysids
+          else svc_create c s new sysids
+      | _ => svc_create c s new sysids
       end
   | a => err (az_cls a) s
   end.
@@ -330,7 +336,7 @@ Definition delete c s k id := guarded_mut c s k id (svc_delete s k id).
 Inductive call :=
 | CFind1 (k : kind) (v id : N)
 | CFindN (k : kind) (f : flt)
-| CCreate (k : kind) (v : N) (new : rsrc) (sysids : list N)
+| CCreate (v : N) (new : rsrc) (sysids : list N)
 | CUpdate (k : kind) (v id pay : N) (active : bool)
 | CDelete (k : kind) (v id : N).
 
@@ -338,7 +344,7 @@ Definition step (c : caller) (s : store) (x : call) : result :=
   match x with
   | CFind1 k v id => find1 c s k v id
   | CFindN k f => findn c s k f
-  | CCreate k v new sysids => create c s k v new sysids
+  | CCreate v new sysids => create c s v new sysids
   | CUpdate k _ id pay active => update c s k id pay active
   | CDelete k _ id => delete c s k id
   end.
@@ -423,10 +429,10 @@ Definition oracle_step (c : caller) (s : store) (x : call) (o : obs) : bool :=
       (* only readable resources of the store are returned; reads do not modify *)
       negb changed &&
       forallb (fun i => match lookup s k i with Some r => may_read c r | None => false end) (o_ids o)
-  | CCreate k _ new _ =>
+  | CCreate _ new _ =>
       negb (okc || changed) ||
-      (may_create c k (r_org new) (r_user new) &&
-       match k with
+      (may_create c (r_kind new) (r_org new) (r_user new) &&
+       match r_kind new with
        | KAuth => forallb (may c) (r_perms new)
                   && no_escalation_b c (r_perms new) (match o_post o with Some s' => s' | None => s end)
        | _ => true
@@ -452,7 +458,7 @@ Definition res_eqb (a b : rsrc) : bool :=
 Definition incl_b {A} (eqb : A -> A -> bool) (a b : list A) : bool :=
   forallb (fun x => existsb (eqb x) b) a.
 Definition set_eqb {A} (eqb : A -> A -> bool) (a b : list A) : bool :=
-  Nat.eqb (length a) (length b) && incl_b eqb a b && incl_b eqb b a.
+  incl_b eqb a b && incl_b eqb b a.
 
 Definition urm_eqb (a b : N * N) : bool := N.eqb (fst a) (fst b) && N.eqb (snd a) (snd b).
 
